@@ -17,12 +17,12 @@ MB == <<"b", "x">>
 ONames   == T({"n1", "n2"}, {"", "n1", "n2"})
 OModes   == {"rec", "dir"}
 OFactors == T({<<0, 0>>, <<0 - 1, 0 - 1>>, <<1, 2>>, <<2, 1>>},
-              {<<0, 0>>, <<0 - 1, 0 - 1>>, <<1, 2>>, <<2, 1>>, <<0, 2>>, <<3, 3>>})
+              {<<0, 0>>, <<0 - 1, 0 - 1>>, <<1, 2>>, <<2, 1>>, <<0, 2>>, <<0 - 1, 2>>, <<3, 3>>})
 OExps    == T({"none", "past", "f1"}, {"none", "past", "f1", "f2"})
 OMetas   == T({<<>>, <<MA>>, <<MA, MB>>}, {<<>>, <<MA>>, <<MAy>>, <<MA, MB>>})
 EMetas   == {<<>>, <<MA>>, <<MA, MB>>}
 OOrigs   == T({<<>>, <<"o1">>}, {<<>>, <<"o1">>, <<"o1", "o2">>})
-OUas     == {<<>>, <<"p3">>}
+OUas     == T({<<>>, <<"p3">>}, {<<>>, <<"p3">>, <<"p2", "p3">>})
 OUpds    == T({NoCid, "c2"}, {NoCid, "c2", "c3"})
 
 Opt(n, m, f, e, md, og, ua, up) ==
@@ -69,6 +69,7 @@ MsSet     == {MsGood, MsP2Bad, MsOnlyP1}
 Defaults  == {<<0 - 1, 0 - 1>>, <<1, 2>>, <<2, 3>>}
 EnvOf(fo, d, st, m, bk) == [follower |-> fo, dmin |-> d[1], dmax |-> d[2], strat |-> st, ms |-> m, paths |-> AllPaths, blocks |-> bk]
 MainEnvs == {EnvOf(FALSE, d, "asc", MsGood, AllBlocks) : d \in Defaults}
+            \cup T({}, {EnvOf(FALSE, <<2, 3>>, "asc", MsP2Bad, AllBlocks)})
 
 SideEnvs == {EnvOf(TRUE, <<1, 2>>, "asc", MsGood, AllBlocks), EnvOf(FALSE, <<1, 2>>, "desc", MsGood, <<>>),
              EnvOf(FALSE, <<1, 2>>, "asc", MsP2Bad, AllBlocks),
